@@ -1,4 +1,18 @@
-"""draft"""
+"""C16, round 2 (tag c16c): the CONSTRUCTORS of the controller / catalog layer under contract.
+
+Controller.__init__    names kept in order, index 0, index table; BiogemeError IFF a name holds ; or : or two
+                       specification names are equal
+Catalog.__init__       members kept in order; without controller a fresh one named like the catalog with the member
+                       names in order; with a controller: that object, and BiogemeError IFF its specification names
+                       differ from the member names AS SEQUENCES (same length, same name at every position) -- so the
+                       clause `controller_names_are_member_names_in_order` holds for every catalog ever built, which
+                       is what makes Catalog.selected (member at the controller's index, round 1) the member NAMED
+                       like the controller's choice
+Catalog.from_dict      the same, members in the order of the dict
+
+Assumed (verify=False): validate_and_convert returns an Expression argument unchanged; Expression.contains_catalog is
+a pure function of the tree.  Inputs are typed as annotated (requires typed_*).
+"""
 from pyvc.contract import contract, field_type
 from contracts import c16_controller  # noqa
 import ast
@@ -8,6 +22,17 @@ from pyvc.repo import get_repo
 
 c16c_ext.install()
 c16c_ext.INLINE_SUPER_INIT.add('biogeme.expressions.multiple_expressions.MultipleExpression.__init__')
+
+
+def _replay(fam: str) -> str:
+    return f"""
+import sys
+sys.path.insert(0, '/verif/bounded')
+import c16c_ctor_native as N
+n, bad = N.FAMILIES[{fam!r}]()
+violated = bool(bad)
+detail = f'{{n}} cases; first mismatch: {{bad[0] if bad else None}}'
+"""
 
 
 def _own_fields(*quals: str) -> list[str]:
@@ -46,7 +71,7 @@ contract(Q + 'Controller.__init__', 'C16',
              'clean_so_far': f"implies(_k >= 1, not (';' in controller_name or ':' in controller_name)) and "
                              f"forall(lambda q: not (';' in old({_P}[q]) or ':' in old({_P}[q])), 0, _k - 1)",
          }}},
-         )
+         replay=_replay('controller_ctor'))
 
 contract('biogeme.expressions.base_expressions.Expression.contains_catalog', 'C16', verify=False, pure=True,
          types={'name': 'str'}, returns='bool', ensures={'any': 'True'})
@@ -105,4 +130,41 @@ contract('biogeme.catalog.Catalog.__init__', 'C16',
          invariants={1: {'clauses': {
              'appended': 'len(self.children) == _k',
              'in_order': f'forall(lambda q: self.children[q] is old({_M}[q].expression), 0, _k)',
-         }}})
+         }}},
+         replay=_replay('catalog_ctor'))
+
+
+# ---------------------------------------------------------------------------------------------------------------
+# Catalog.from_dict: the members are the items of the dict IN THE ORDER OF THE DICT
+# ---------------------------------------------------------------------------------------------------------------
+_D = 'dict_of_expressions'
+_K = f'keys_of({_D})'
+_R = 'result'
+FD_SAME_NAMES = f"len({_CN}) == len({_D}) and forall(lambda q: {_CN}[q] == {_K}[q], 0, len({_D}))"
+FD_RAISES = (
+    "';' in catalog_name or ':' in catalog_name or len(dict_of_expressions) == 0 or "
+    f"exists(lambda q: {_D}[{_K}[q]].contains_catalog(catalog_name), 0, len({_D})) or "
+    f"(controlled_by is None and exists(lambda q: ';' in {_K}[q] or ':' in {_K}[q], 0, len({_D}))) or "
+    f"(controlled_by is not None and not ({FD_SAME_NAMES}))")
+contract('biogeme.catalog.Catalog.from_dict', 'C16',
+         types={'catalog_name': 'str', 'dict_of_expressions': 'dict[str, biogeme.expressions.base_expressions.Expression]',
+                'controlled_by': 'biogeme.controller.Controller | None'},
+         returns='biogeme.catalog.Catalog',
+         requires={'typed_controller': 'controlled_by is None or isinstance(controlled_by, Controller)'},
+         modifies=[],
+         raises={'BiogemeError': FD_RAISES},
+         ensures={
+             'name': f'{_R}.name == catalog_name',
+             'members_count': f'len({_R}.named_expressions) == len({_D})',
+             'members_names_in_dict_order': f'forall(lambda q: {_R}.named_expressions[q].name == {_K}[q], 0, len({_D}))',
+             'members_expressions_in_dict_order':
+                 f'forall(lambda q: {_R}.named_expressions[q].expression is {_D}[{_K}[q]], 0, len({_D}))',
+             'shared_controller': f'implies(controlled_by is not None, {_R}.controlled_by is controlled_by)',
+             'fresh_controller': f"implies(controlled_by is None, {_R}.controlled_by.controller_name == catalog_name and "
+                                 f"{_R}.controlled_by.current_index == 0)",
+             'controller_names_are_member_names_in_order':
+                 f'len({_R}.controlled_by.specification_names) == len({_R}.named_expressions) and '
+                 f'forall(lambda q: {_R}.controlled_by.specification_names[q] == {_R}.named_expressions[q].name, '
+                 f'0, len({_R}.named_expressions))',
+         },
+         replay=_replay('from_dict'))
